@@ -33,19 +33,21 @@ func reTag(re *regexp.Regexp, s string) string {
 	return "BAD"
 }
 
-func toTag(to []string) string {
-	if len(to) != 1 {
-		return "BAD"
-	}
-	return reTag(toRE, to[0])
-}
-
 func subjTag(s string) string { return reTag(subjRE, s) }
+
+// refTagS: the tag the metadata fields name (candidate for the fields that are looked up by tag: digests, text)
+func refTagS(subject, from string, to []string) string {
+	if t, ok := refTag(subject, from, to); ok {
+		return strconv.Itoa(t)
+	}
+	return "BAD"
+}
 
 // hdrFields: k<id>.<posix-millis>.<date as millis>.<from>.<to>.<subject>.<size>.<seen>
 func (e *env) hdrFields(mailbox, id string, millis int64, date time.Time, from string, to []string, subject string, size int64, seen bool) string {
+	ref, ok := refTag(subject, from, to)
 	return fmt.Sprintf("%s.%d.%d.%s.%s.%s.%d.%s", e.kOf(mailbox, id), millis, date.UnixNano()/1000000,
-		reTag(fromRE, from), toTag(to), subjTag(subject), size, seenTok(seen))
+		fromFieldTag(from, ref, ok), toFieldTag(to, ref, ok), subjFieldTag(subject, ref, ok), size, seenTok(seen))
 }
 
 func (e *env) jsonHdrTok(h *jhdr) string {
@@ -107,7 +109,7 @@ var linkRE = regexp.MustCompile(`^http://([^/]+)/serve/mailbox/(.+)/([^/]+)/atta
 
 // jsonMsgTok projects a full v1 message: header fields | text | html | MIME header | attachments
 func (e *env) jsonMsgTok(h *jhdr, host string) string {
-	st := subjTag(h.Subject)
+	st := refTagS(h.Subject, h.From, h.To)
 	text, html := "BAD", "BAD"
 	if h.Body != nil {
 		text, html = reTag(textRE, h.Body.Text), htmlTok(h.Body.HTML, false)
@@ -133,7 +135,7 @@ func (e *env) jsonMsgTok(h *jhdr, host string) string {
 
 // jsonUITok projects the web-UI message: header fields | text | html | MIME header | attachment ids | error count
 func (e *env) jsonUITok(h *jhdr) string {
-	st := subjTag(h.Subject)
+	st := refTagS(h.Subject, h.From, h.To)
 	text, html := "BAD", "BAD"
 	if h.Text != nil {
 		text = uiTextTag(*h.Text, st)
@@ -157,7 +159,7 @@ func (e *env) cliHdrTok(h *client.MessageHeader) string {
 
 // cliMsgTok: the client's Message (same JSON as the v1 message; links are not compared here)
 func (e *env) cliMsgTok(m *client.Message) string {
-	st := subjTag(m.Subject)
+	st := refTagS(m.Subject, m.From, m.To)
 	text, html := "BAD", "BAD"
 	if m.Body != nil {
 		text, html = reTag(textRE, m.Body.Text), htmlTok(m.Body.HTML, false)
